@@ -182,6 +182,9 @@ func parseGfx(b []byte) string {
 	var d, w, u []string
 	cupRow, cupCol := -1, -1
 	lastUp := -1
+	// kitty placements written so far in this output: a delete of the same (image, placement id) that comes after the
+	// write removes what was just placed (the order of the two loops of render matters; round 3)
+	written := map[[2]int]bool{}
 	for _, m := range reGfx.FindAllStringSubmatch(string(b), -1) {
 		switch {
 		case m[1] != "":
@@ -196,10 +199,15 @@ func parseGfx(b []byte) string {
 				e += fmt.Sprintf("!cursor-at-%d,%d", cupCol-1, cupRow-1)
 			}
 			w = append(w, e)
+			written[[2]int{id, pid}] = true
 		case m[5] != "":
 			id, _ := strconv.Atoi(m[5])
 			pid, _ := strconv.Atoi(m[6])
-			d = append(d, fmt.Sprintf("%d@%d,%d", id, pid>>16, pid&0xffff))
+			e := fmt.Sprintf("%d@%d,%d", id, pid>>16, pid&0xffff)
+			if written[[2]int{id, pid}] {
+				e += "!deleted-after-it-was-written-in-this-frame"
+			}
+			d = append(d, e)
 		case m[7] != "":
 			id, _ := strconv.Atoi(m[7])
 			if id != lastUp {
